@@ -101,6 +101,52 @@ theorem kdt_matched_iff (D : List (List Dist)) (inds : List (List Nat)) (ny K : 
   · rintro ⟨hx, c, hm, hc, hv, hlt⟩
     exact mem_zip_of_mark hinv hx hm hc hv hlt
 
+/-- Greedy specification of the marker matrix: row `r` is marked in column `c` exactly when it is the
+    closest claimant of its `c`-th neighbour (smallest distance among the rows whose `c`-th neighbour is the
+    same candidate, first such row on ties), that candidate is under no mark of an earlier column, and `r`
+    holds no mark in an earlier column. -/
+theorem kdt_marks_greedy (D : List (List Dist)) (inds : List (List Nat)) {K c : Nat} (hc : c < K) (r : Nat) :
+    M (runCols uniqueInds inds.length (indsAt inds) (dAt D) K).cols c r = true ↔
+      r < inds.length ∧ claimant inds.length (indsAt inds) (dAt D) c (indsAt inds r c) = some r ∧
+      (∀ c' r', c' < c → M (runCols uniqueInds inds.length (indsAt inds) (dAt D) K).cols c' r' = true →
+        indsAt inds r' c' ≠ indsAt inds r c) ∧
+      ∀ c', c' < c → M (runCols uniqueInds inds.length (indsAt inds) (dAt D) K).cols c' r = false :=
+  M_runCols_greedy inds.length (indsAt inds) (dAt D) hc r
+
+/-- Each candidate goes to its closest claimant: a returned pair `(x, y)` was formed in a column `c` in which
+    no other row having `y` as its `c`-th neighbour is strictly closer to `y` than `x` is. -/
+theorem kdt_closest_claimant (D : List (List Dist)) (inds : List (List Nat)) (ny K : Nat) :
+    ∀ p ∈ (kdtMatch D inds ny K).1.zip (kdtMatch D inds ny K).2,
+      ∃ c, c < K ∧ indsAt inds p.1 c = p.2 ∧
+        ∀ r', r' < inds.length → indsAt inds r' c = p.2 → dle (dAt D p.1 c) (dAt D r' c) = true := by
+  intro p hp
+  obtain ⟨_, hf⟩ := matchWith_pair hp
+  obtain ⟨c, hm, hc, _, hv, _⟩ := finalOf_some hf
+  rw [runCols_length] at hc
+  refine ⟨c, hc, hv, ?_⟩
+  intro r' hr' hv'
+  have hcl := ((M_runCols_greedy inds.length (indsAt inds) (dAt D) hc p.1).mp hm).2.1
+  unfold claimant at hcl
+  exact closest_min hcl r' ((mem_positionsOf_colList ..).mpr ⟨hr', by rw [hv', hv]⟩)
+
+/-- Nothing admissible is wasted in the first column: every row of `y` that is the nearest neighbour of some
+    row of `x` is matched, and it is matched to a row that has it as nearest neighbour at the smallest
+    distance. -/
+theorem kdt_first_neighbour_matched (D : List (List Dist)) (inds : List (List Nat)) (ny K : Nat) (hK : 0 < K)
+    (r : Nat) (hr : r < inds.length) (hv : indsAt inds r 0 < ny) :
+    ∃ x, (x, indsAt inds r 0) ∈ (kdtMatch D inds ny K).1.zip (kdtMatch D inds ny K).2 ∧
+      indsAt inds x 0 = indsAt inds r 0 ∧ dle (dAt D x 0) (dAt D r 0) = true := by
+  have hmem := (mem_positionsOf_colList inds.length (indsAt inds) 0 (indsAt inds r 0) r).mpr ⟨hr, rfl⟩
+  obtain ⟨x, hx⟩ := closest_isSome_of_mem (d := fun r => dAt D r 0) hmem
+  obtain ⟨hxlt, hxv⟩ := (mem_positionsOf_colList ..).mp (closest_mem hx)
+  have hmark : M (runCols uniqueInds inds.length (indsAt inds) (dAt D) K).cols 0 x = true := by
+    refine (M_runCols_greedy inds.length (indsAt inds) (dAt D) hK x).mpr ⟨hxlt, ?_, ?_, ?_⟩
+    · unfold claimant; rw [hxv]; exact hx
+    · intro c' r' h; omega
+    · intro c' h; omega
+  have hinv := Inv_runCols uniqueInds_occSound inds.length (indsAt inds) (dAt D) K
+  exact ⟨x, mem_zip_of_mark hinv hxlt hmark (by omega) hxv hv, hxv, closest_min hx r hmem⟩
+
 /-- The same loop with the occurrence lookup of the pinned code (`_unique_inds` returning positions in
     the sorted copy, defect D13) is NOT one-to-one, on a well-formed query result:
     x = [0, 1, 1], y = [2], K = 2, bound 1.5 matches row 0 of y to rows 1 and 2 of x. -/
